@@ -95,6 +95,22 @@ func runSurvey(e *Engine, what string) {
 			return
 		}
 		e.dumpAnchors(names)
+	case "err":
+		// error discipline over the whole module (cross-reference only)
+		r := &Report{Prop: "survey", e: e, cfg: "survey"}
+		all := errScope{pkgs: map[string]bool{}, files: map[string]bool{}}
+		for _, f := range e.ScopeFuncs() {
+			if p := fnPkg(f); p != nil && inModule(p) {
+				all.pkgs[strings.TrimPrefix(strings.TrimPrefix(p.Path(), modPath), "/")] = true
+			}
+		}
+		st := e.CheckErrDiscipline(r, all, map[string]string{})
+		for _, o := range r.Obs {
+			if !o.OK {
+				fmt.Printf("%s %s %s: %s\n", o.Rule, o.Pos, o.Construct, o.Detail)
+			}
+		}
+		fmt.Printf("funcs=%d calls=%d edges=%d\n", st.Funcs, st.Calls, st.ErrEdges)
 	case "acc":
 		for _, f := range e.ScopeFuncs() {
 			for _, lf := range loopFlags(f) {
